@@ -33,7 +33,7 @@ end
 """
 import re
 
-DIRECTIVES = ('nohints', 'closure', 'serves', 'mode', 'ret', 'requires', 'ensures', 'loop', 'entry', 'at', 'after', 'outline', 'extra',
+DIRECTIVES = ('hook_spec', 'hook_ensures', 'hook_requires', 'nohints', 'closure', 'serves', 'mode', 'ret', 'requires', 'ensures', 'loop', 'entry', 'at', 'after', 'outline', 'extra',
               'attr', 'recommends', 'decreases', 'sig', 'nounwind', 'specimpl', 'replace_sig')
 
 
@@ -75,6 +75,9 @@ class Contract:
         self.sig = None
         self.used = False
         self.nohints = False
+        self.hook_spec = []
+        self.hook_ensures = []
+        self.hook_requires = []
 
     def loop(self, k):
         return self.loops.setdefault(k, dict(iter=None, ghost=[], invariant=[], ensures=[], decreases=None,
@@ -161,6 +164,12 @@ def parse_sidecar(path):
             txt, i = block(i + 1)
             name = rest or ('%s%d' % (d[:3], len(getattr(cur, d)) + 1))
             getattr(cur, d).append(Clause(d, name, txt, None, here, path))
+        elif d == 'hook_spec':
+            txt, i = block(i + 1)
+            cur.hook_spec.append(txt)
+        elif d in ('hook_ensures', 'hook_requires'):
+            txt, i = block(i + 1)
+            getattr(cur, d).append(Clause(d, rest or ('h%d' % (len(getattr(cur, d)) + 1)), txt, None, here, path))
         elif d == 'decreases':
             cur.decreases, i = block(i + 1)
         elif d == 'entry':
